@@ -36,12 +36,12 @@ func runC04(c *Ctx, r *Report) {
 	c05R5(c, ev, "T.R5")
 	c09R7(c, ev, "T.R7")
 	c17Read(c, ev)
+	tmp := newReport("tmp")
+	c10Policies(c, tmp) // also evaluates the policies' divisions with concrete counters
 	c04Bounds(c, r)
 	c04R3(c, r, "C04.R3")
 	c04R5(c, r, "C04.R5")
 	// R6
-	tmp := newReport("tmp")
-	c10Policies(c, tmp)
 	r.rule("C04.R6", "no method call on a nil upstream slot in any selection policy (path evaluation, pools of 0..3)", 6)
 	for _, o := range tmp.Obls {
 		if o.Rule == "C10.R1" {
